@@ -299,3 +299,6 @@ def run(facts, rep, tier):
     c05.rule_r7(facts, rep, "C17-R7")
     rep.rule("C17-R8", "A reference is replaced by the whole referenced note: the document pointer from to_key is squashed as it is and the result's children are spliced in.")
     rule_r8(facts, rep)
+    rep.rule("C17-R9", "= C05-R3: which paragraphs are block references at all is decided by model::is_ref_url (a negated disjunction of case-folded *complete* scheme prefixes): a note whose key "
+             "merely starts like a scheme (`http-caching`) must still be a reference, or squash never expands it.")
+    c05.rule_r3(facts, rep, "C17-R9")
